@@ -404,6 +404,8 @@ pub fn write_app(spec: &AppSpec, dir: &CaseDir) -> std::io::Result<AppFiles> {
 
 pub fn app_from_config(config: &Value, dir: &Path) -> Result<CompassApp, String> {
     let text = serde_json::to_string(config).map_err(|e| e.to_string())?;
+    // the configuration's own path is normalised like every *_input_file key: it must exist
+    std::fs::write(dir.join("config.json"), &text).map_err(|e| e.to_string())?;
     let conf = read_config_from_string(
         text,
         config::FileFormat::Json,
